@@ -262,6 +262,9 @@ def _chunks(it, n):
             size *= 2
 
 
+MAX_TIMEOUTS = 48
+
+
 def explore(prop, tier, seed, only_policies=None, only_layers=None, budget_s=None):
     """Returns the result dict for one run of one property."""
     global _PROP, _LAYERS
@@ -297,6 +300,7 @@ def explore(prop, tier, seed, only_policies=None, only_layers=None, budget_s=Non
     outcomes, fails, samples, herr = set(), [], [], []
     notes = {}
     capped = False
+    n_timeouts = 0
     ctx = multiprocessing.get_context("fork")
     if NPROC > 1:
         pool = ctx.Pool(NPROC)
@@ -314,9 +318,19 @@ def explore(prop, tier, seed, only_policies=None, only_layers=None, budget_s=Non
             for nk, nv in st["notes"].items():
                 notes[nk] = notes.get(nk, 0) + nv
             fails.extend(st["fails"])
+            n_timeouts += sum(1 for f in st["fails"] if f["clause"].endswith(".terminates"))
             herr.extend(st["harness_errors"])
             if len(samples) < 6:
                 samples.extend(st["samples"][:1])
+            if n_timeouts >= MAX_TIMEOUTS:
+                # the property is already refuted many times over by calls that do not return: every further one
+                # would cost a whole watchdog horizon, so the exploration stops here (reported as capped)
+                notes["stopped_after_non_terminating_calls"] = n_timeouts
+                capped = True
+                stop.append(1)
+                for _ in range(NPROC * 8):
+                    sem.release()
+                break
             if budget_s and time.time() - t0 > budget_s:
                 capped = True
                 stop.append(1)
